@@ -155,6 +155,14 @@ func (this *BinaryEntropyEncoder) Write(block []byte) (int, error) {
 }
 
 func (this *BinaryEntropyEncoder) flush() {
+	if this.index+4 > len(this.buffer) {
+		// The chunk expands more than estimated (the predictor keeps
+		// guessing wrong): grow the buffer instead of running past its end
+		buf := make([]byte, 2*len(this.buffer)+4)
+		copy(buf, this.buffer[0:this.index])
+		this.buffer = buf
+	}
+
 	binary.BigEndian.PutUint32(this.buffer[this.index:], uint32(this.high>>24))
 	this.index += 4
 	this.low <<= 32
@@ -299,7 +307,14 @@ func (this *BinaryEntropyDecoder) Read(block []byte) (int, error) {
 		szBytes := ReadVarInt(this.bitstream)
 
 		if szBytes > uint32(bufSize) {
-			return startChunk, errors.New("Binary entropy codec: Invalid bitstream")
+			// The encoder emits at most one 32 bit word per encoded bit
+			if uint64(szBytes) > 32*uint64(chunkSize) {
+				return startChunk, errors.New("Binary entropy codec: Invalid bitstream")
+			}
+
+			if len(this.buffer) < int(szBytes) {
+				this.buffer = make([]byte, szBytes)
+			}
 		}
 
 		this.current = this.bitstream.ReadBits(56)
